@@ -641,12 +641,47 @@ func checkRewriteOnlyAfterSuccess(p *core.Prog, r *core.Result, rule string) {
 		return
 	}
 	n := 0
+	// the write sites: the WriteConfigFile calls outside the configuration package, or - where the call sits in a helper
+	// that does nothing fallible before it (a save method of an editor object) - the calls of that helper
+	var sites []ssa.CallInstruction
+	hasFallibleBefore := func(w ssa.CallInstruction) bool {
+		win := w.(ssa.Instruction)
+		for _, c := range core.Calls(win.Parent()) {
+			call, ok := c.(*ssa.Call)
+			if !ok || call == win {
+				continue
+			}
+			cal := core.Callee(call)
+			if cal == nil || !core.InModule(cal) {
+				continue
+			}
+			cres := cal.Signature.Results()
+			if cres.Len() >= 2 && isErrorType(cres.At(cres.Len()-1).Type()) && (call.Block() == win.Block() && core.Index(call) < core.Index(win) || call.Block() != win.Block() && core.Reaches(call.Block(), win.Block(), false)) {
+				return true
+			}
+		}
+		return false
+	}
+	var lift func(w ssa.CallInstruction, depth int)
+	lift = func(w ssa.CallInstruction, depth int) {
+		fn := w.Parent()
+		if fn.Pkg != nil && fn.Pkg == write.Pkg {
+			return
+		}
+		if hasFallibleBefore(w) || depth >= 2 || len(p.StaticCallers(fn)) == 0 {
+			sites = append(sites, w)
+			return
+		}
+		for _, cs := range p.StaticCallers(fn) {
+			lift(cs, depth+1)
+		}
+	}
 	for _, w := range p.StaticCallers(write) {
+		lift(w, 0)
+	}
+	for _, w := range sites {
 		win := w.(ssa.Instruction)
 		fn := win.Parent()
-		if fn.Pkg != nil && fn.Pkg == write.Pkg {
-			continue
-		}
 		facts := p.FactsAt(win)
 		knownNil := func(v ssa.Value) bool {
 			nn, known := facts.ErrNonNil(v)
